@@ -1,4 +1,4 @@
-from . import p_state, p_docopt, p_engine, p_find, p_verbatim, p_exec
+from . import p_state, p_docopt, p_engine, p_find, p_verbatim, p_exec, p_robust
 PROPS = {}
 PROPS.update(p_state.PROPS)
 PROPS.update(p_docopt.PROPS)
@@ -6,3 +6,4 @@ PROPS.update(p_engine.PROPS)
 PROPS.update(p_find.PROPS)
 PROPS.update(p_verbatim.PROPS)
 PROPS.update(p_exec.PROPS)
+PROPS.update(p_robust.PROPS)
